@@ -128,4 +128,44 @@ theorem gated_store_loses_iterations_of_a_restart :
     compIds (restartHistory.foldl (stepGated 4) (Session.create 4 ⟨doc, 0, []⟩)).exp.doc
       = [(0, 1, false), (0, 5, false)] := by decide
 
+
+/-! ## components instantiated after a reload
+
+`looped`: platform 1 (`hpc`); the default blueprint of stage 1 (the stage of the loop) sets option 50 (say
+`resourceRequest.numberThreads`) to `2`, the global blueprint of platform 1 sets it to `4` and option 51 (say
+`command.environment`) to `e`.  The new component 40 of the next iteration sets neither. -/
+
+def looped : Exp :=
+  { doc := { vars := [(0, ⟨[(10, [.ch 49])], []⟩)]
+             bps := [(0, ⟨[], [(1, [(50, [.ch 50])])]⟩), (1, ⟨[(50, [.ch 52]), (51, [.ch 101])], []⟩)]
+             comps := [ { stage := 0, name := 30, isDoc := false, opts := [(23, [.ch 120])], vars := [], ovr := [] },
+                        { stage := 1, name := 31, isDoc := true, opts := [], vars := [], ovr := [] } ] }
+    plat := 1, patches := [] }
+
+def nextIter : Comp := { stage := 1, name := 40, isDoc := false, opts := [(23, [.ch 121])], vars := [], ovr := [] }
+
+/-- the code that exists (known finding C07-stored-blueprints-reorder-layers): the experiment that holds the package
+description gives the new component the platform's value `4`, the experiment loaded from the stored description the
+default-stage value `2` — `bpOrderFree` is what `new_component_after_reload_partial` needs -/
+theorem stored_blueprints_swap_stage_and_platform_layers :
+    resolves 4 looped.doc 1 = true ∧ bpClosed 4 looped.doc 1 1 = true ∧ bpOrderFree looped.doc 1 1 = false ∧
+    get? (flatComp 4 (addIteration looped [nextIter]).doc 1 nextIter).opts 50 = some [.ch 52] ∧
+    get? (flatComp 4 (addIteration (reload 4 looped) [nextIter]).doc 1 nextIter).opts 50 = some [.ch 50] := by decide
+
+/-- without the conflicting path the two agree (the theorem applies) -/
+theorem stored_blueprints_agree_elsewhere :
+    get? (flatComp 4 (addIteration looped [nextIter]).doc 1 nextIter).opts 51 = some [.ch 101] ∧
+    get? (flatComp 4 (addIteration (reload 4 looped) [nextIter]).doc 1 nextIter).opts 51 = some [.ch 101] := by decide
+
+/-- NOT the code that exists: a store that leaves the blueprints out (`storeNoBlueprints`: "the components already
+have them folded in").  Right after the reload nothing differs — every existing component has the configuration it
+had and storing again writes the same components — but the next iteration of the restarted experiment loses every
+inherited setting: option 51 is absent where the never-reloaded experiment has `e`. -/
+theorem blueprintless_store_breaks_next_iteration :
+    (let R : Exp := { doc := storeNoBlueprints 4 looped, plat := 1, patches := [] }
+     runningConfig 4 R = runningConfig 4 looped ∧
+     (store 4 R).comps = (store 4 looped).comps ∧
+     get? (flatComp 4 (addIteration looped [nextIter]).doc 1 nextIter).opts 51 = some [.ch 101] ∧
+     get? (flatComp 4 (addIteration R [nextIter]).doc 1 nextIter).opts 51 = none) := by decide
+
 end St4sd.C07.Witness
